@@ -54,28 +54,11 @@ var c12ScopePkgs = map[string]bool{
 
 type c12Exempt struct {
 	Key    string   `json:"key"`
+	CKey   string   `json:"ckey,omitempty"` // canonical form of key (core/canon.go), written by `yfcheck -canontables`
+	Rule   string   `json:"rule,omitempty"`
 	Reason string   `json:"reason"`
 	Needs  []string `json:"needs_fact_mentioning,omitempty"` // the exemption only holds under a dominating guard mentioning these names
-}
-
-var c12Needs = map[string][]string{}
-
-func loadC12Table() map[string]string {
-	out := map[string]string{}
-	b, err := os.ReadFile(filepath.Join(VerifDir, "tables", "c12_exempt.json"))
-	if err != nil {
-		return out
-	}
-	var list []c12Exempt
-	if json.Unmarshal(b, &list) == nil {
-		for _, e := range list {
-			out[e.Key] = e.Reason
-			if len(e.Needs) > 0 {
-				c12Needs[e.Key] = e.Needs
-			}
-		}
-	}
-	return out
+	CNeeds []string `json:"cneeds,omitempty"`                // canonical form of Needs
 }
 
 // c12Scope returns the functions in scope, the reach map and the entries.
@@ -141,7 +124,7 @@ func C12(r *core.Report) {
 	r.Assumptions = []string{"facts are matched syntactically (same printed expression) and must be fresh (no reassignment between guard and use)", "the exemption table entries were confirmed by reading; each names one construct and its invariant"}
 	p := r.Prog
 	fns, reach, nroots := c12Scope(r)
-	table := loadC12Table()
+	table := loadExemptTable(p, "c12_exempt.json")
 	usedExempt := map[string]bool{}
 	r.Extra["C12_entry_functions"] = nroots
 	r.Extra["C12_scope_functions"] = len(fns)
@@ -154,17 +137,18 @@ func C12(r *core.Report) {
 			r.OK(rule, key, posn, okMsg)
 			return
 		}
-		if reason, listed := table[key]; listed {
-			usedExempt[key] = true
+		ckey := key // keys are canonical already
+		if reason, listed := table[ckey]; listed {
+			usedExempt[ckey] = true
 			needOK := true
-			if needs := c12Needs[key]; len(needs) > 0 {
+			if needs := exemptNeeds[ckey]; len(needs) > 0 {
 				needOK = false
 				if curNode != nil && curGraph != nil {
 					for _, fc := range curGraph.FactsAt(curNode) {
-						s := core.ExprStr(fc.Expr)
+						s := p.CanonText(f.RootKey(), core.ExprStr(fc.Expr))
 						all := true
 						for _, w := range needs {
-							if !containsWord(s, w) {
+							if !core.ContainsCanon(s, w) {
 								all = false
 							}
 						}
@@ -178,7 +162,7 @@ func C12(r *core.Report) {
 				r.OK(rule, key, posn, "exempt (tables/c12_exempt.json): "+reason)
 				return
 			}
-			badMsg += " [the table exemption for this site requires a dominating guard mentioning " + strings.Join(c12Needs[key], ", ") + ", which is missing]"
+			badMsg += " [the table exemption for this site requires a dominating guard mentioning " + strings.Join(exemptNeedsText[ckey], ", ") + ", which is missing]"
 		}
 		r.Violation(rule, key, posn, badMsg, core.PathTo(reach, f)...)
 	}
@@ -209,7 +193,7 @@ func C12(r *core.Report) {
 				if x.Type == nil {
 					return true
 				}
-				key := mk(fmt.Sprintf("%s#assert:%s", f.Key, core.ExprStr(x)))
+				key := mk(fmt.Sprintf("%s#assert:%s", f.Key, core.KeyStr(f, x)))
 				if decodedLinkAssertion(p, f, x) {
 					key = mk(fmt.Sprintf("%s#assert:decoded-link.(cidlink.Link)", f.Key))
 					report("C12.R1", key, pos(r, x), true, "a link of a node decoded by this repository's decoders: they construct every link as cidlink.Link (checked: ipldbindcode stores nothing else into a Link slot)", "", f)
@@ -227,7 +211,7 @@ func C12(r *core.Report) {
 					arg := x.Args[0]
 					nd := g.NodeOf(x.Pos())
 					ok, why := bufAtLeast(p, f, g, nd, arg, int64(w))
-					key := mk(fmt.Sprintf("%s#%s(%s)", f.Key, nm[strings.LastIndex(nm, ".")+1:], core.ExprStr(arg)))
+					key := mk(fmt.Sprintf("%s#%s(%s)", f.Key, nm[strings.LastIndex(nm, ".")+1:], core.KeyStr(f, arg)))
 					report("C12.R3", key, pos(r, x), ok, why, fmt.Sprintf("%s needs %d bytes but the length of %s is not guarded: a short input panics", nm, w, core.ExprStr(arg)), f)
 				}
 				// slice-to-array conversion
@@ -236,7 +220,7 @@ func C12(r *core.Report) {
 						if _, isSl := info.TypeOf(x.Args[0]).Underlying().(*types.Slice); isSl {
 							nd := g.NodeOf(x.Pos())
 							ok, why := bufAtLeast(p, f, g, nd, x.Args[0], at.Len())
-							key := mk(fmt.Sprintf("%s#toarray(%s)", f.Key, core.ExprStr(x.Args[0])))
+							key := mk(fmt.Sprintf("%s#toarray(%s)", f.Key, core.KeyStr(f, x.Args[0])))
 							report("C12.R3", key, pos(r, x), ok, why, "slice-to-array conversion without a length guard", f)
 						}
 					}
@@ -250,12 +234,12 @@ func C12(r *core.Report) {
 							}
 							nd := g.NodeOf(x.Pos())
 							ok, why := sizeBounded(p, f, g, nd, a)
-							key := mk(fmt.Sprintf("%s#make(%s)", f.Key, core.ExprStr(a)))
+							key := mk(fmt.Sprintf("%s#make(%s)", f.Key, core.KeyStr(f, a)))
 							report("C12.R4", key, pos(r, x), ok, why, "allocation sized by "+core.ExprStr(a)+", which is taken from the input without an upper bound (or can be negative)", f)
 						}
 					}
 				case "panic":
-					key := mk(fmt.Sprintf("%s#panic(%s)", f.Key, core.Trunc(argList(x), 40)))
+					key := mk(fmt.Sprintf("%s#panic(%s)", f.Key, core.Trunc(argList(f, x), 40)))
 					report("C12.R5", key, pos(r, x), false, "", "explicit panic in a parser of external data", f)
 				}
 			case *ast.BinaryExpr:
@@ -270,7 +254,7 @@ func C12(r *core.Report) {
 								}
 							}
 						}
-						key := mk(fmt.Sprintf("%s#div(%s)", f.Key, core.ExprStr(x)))
+						key := mk(fmt.Sprintf("%s#div(%s)", f.Key, core.KeyStr(f, x)))
 						report("C12.R6", key, pos(r, x), ok, "divisor is tested before the division", "integer division by "+core.ExprStr(x.Y)+", which is not tested against zero", f)
 					}
 				}
@@ -352,7 +336,7 @@ func c12KindByte(r *core.Report) {
 					ok, why = s.OK, s.Reason
 				}
 			}
-			r.Check(ok, rule, fmt.Sprintf("%s#kind(%s)", f.Key, core.ExprStr(ix)), pos(r, ix), "kind byte read under a length guard: "+why,
+			r.Check(ok, rule, fmt.Sprintf("%s#kind(%s)", f.Key, core.KeyStr(f, ix)), pos(r, ix), "kind byte read under a length guard: "+why,
 				"the node kind is read as "+core.ExprStr(ix)+" without checking that the section has that many bytes (use iplddecoders.GetKind): an empty or one-byte section panics the reader")
 		}
 	}
@@ -360,9 +344,10 @@ func c12KindByte(r *core.Report) {
 }
 
 type c12Invariant struct {
-	Func     string   `json:"func"`
-	Mentions []string `json:"mentions"`
-	What     string   `json:"what"`
+	Func      string   `json:"func"`
+	Mentions  []string `json:"mentions"`
+	CMentions []string `json:"cmentions,omitempty"` // canonical form of Mentions w.r.t. the locals of Func (core/canon.go)
+	What      string   `json:"what"`
 }
 
 // c12Invariants (R7): the validation steps that the exemption table relies on are really performed:
@@ -390,7 +375,14 @@ func checkInvariantTable(r *core.Report, rule, tableFile string) {
 			r.Undecided(rule, "anchor:"+key, "", "function "+inv.Func+" not found: the exemptions relying on its validation cannot be justified")
 			continue
 		}
-		bad := invariantHolds(p, f, inv.Mentions, 0)
+		cm := inv.CMentions
+		if len(cm) != len(inv.Mentions) {
+			cm = nil
+			for _, m := range inv.Mentions {
+				cm = append(cm, p.CanonText(f.RootKey(), m))
+			}
+		}
+		bad := invariantHolds(p, f, cm, 0)
 		r.Check(bad == "", rule, key, posP(r, f.Pos()), inv.What+": validated on every success path", inv.What+" - this validation is relied upon by bounds/size exemptions elsewhere, but "+bad)
 	}
 }
@@ -923,6 +915,8 @@ func invariantHolds(p *core.Prog, f *core.Func, mentions []string, depth int) st
 					if call != nil {
 						if fn := core.Callee(info, call); fn != nil {
 							if h := p.ByObj[fn.Origin()]; h != nil && h.Body != nil {
+								// translate the mentioned quantities into the helper's terms: an argument that is (or
+								// contains) a mentioned quantity becomes the helper's parameter at that position
 								tr := make([]string, len(mentions))
 								copy(tr, mentions)
 								for ai, a := range call.Args {
@@ -930,12 +924,13 @@ func invariantHolds(p *core.Prog, f *core.Func, mentions []string, depth int) st
 									if po == nil {
 										continue
 									}
-									as := core.ExprStr(a)
+									as := p.CanonText(f.RootKey(), core.ExprStr(a))
+									ptok := p.CanonText(h.RootKey(), po.Name())
 									for i := range tr {
-										if containsWord(tr[i], as) {
-											tr[i] = strings.ReplaceAll(tr[i], as, po.Name())
+										if core.ContainsCanon(tr[i], as) {
+											tr[i] = strings.ReplaceAll(tr[i], as, ptok)
 										} else if strings.Contains(as, tr[i]) {
-											tr[i] = po.Name() // the mentioned quantity is passed as this argument
+											tr[i] = ptok // the mentioned quantity is passed as this argument
 										}
 									}
 								}
@@ -947,10 +942,10 @@ func invariantHolds(p *core.Prog, f *core.Func, mentions []string, depth int) st
 					}
 				}
 			}
-			s := core.ExprStr(fc.Expr)
+			s := p.CanonText(f.RootKey(), core.ExprStr(fc.Expr))
 			all := true
 			for _, m := range mentions {
-				if !containsWord(s, m) {
+				if !core.ContainsCanon(s, m) {
 					all = false
 				}
 			}
